@@ -126,10 +126,10 @@ def observe(proj, argv, cwd, base, tag):
     for line in res.out.split("\n"):
         m = re.match(r"^(Would delete|Deleting) (.*)$", line)
         if m:
-            locs.append((m.group(1), os.path.relpath(os.path.normpath(os.path.join(cwd, m.group(2))), root)))
+            locs.append((m.group(1), os.path.relpath(os.path.normpath(os.path.join(os.path.realpath(cwd), m.group(2))), os.path.realpath(root))))
         m = re.match(r"^✨ Done! Archive saved as (.*)$", line)
         if m:
-            locs.append(("archive", os.path.normpath(os.path.join(cwd, m.group(1))) == arch))
+            locs.append(("archive", os.path.normpath(os.path.join(os.path.realpath(cwd), m.group(1))) == os.path.realpath(arch)))
     if argv[0] == "where" and res.status == 0:
         p = res.out.strip().split("\n")[-1]
         locs.append(("where", p.replace(root, "<root>")))
@@ -147,9 +147,15 @@ def make():
     def fn(g):
         state = STATES[g.choose("state", len(STATES))]
         argv = COMMANDS[g.choose("cmd", len(COMMANDS))]
-        where = g.choose("cwd", len(CWDS) + 1)
+        where = g.choose("cwd", len(CWDS) + 3)
         base = hrun.SCRATCH_BASE
-        D = "state=%s argv=%s cwd=%s" % (state, list(argv), CWDS[where] if where < len(CWDS) else "<outside the project>")
+        via_link = None
+        if where > len(CWDS):
+            # the same directories, entered through a symbolic link that lives outside the project ($PWD holds the link's path)
+            via_link = ("", "pkg")[where - len(CWDS) - 1]
+            where = CWDS.index("pkg")
+        D = "state=%s argv=%s cwd=%s%s" % (state, list(argv), (CWDS[where] if via_link != "" else "<root>") if where < len(CWDS) else "<outside the project>",
+                                         " entered through a symbolic link outside the project" if via_link is not None else "")
         if where == len(CWDS):
             outside = os.path.join(base, "outside-%d" % os.getpid())
             os.makedirs(outside, exist_ok=True)
@@ -167,7 +173,16 @@ def make():
             return {"nontrivial": False, "sample": None}      # this directory does not exist in this state
         try:
             ref, rres = observe(A, argv, str(A.root), base, "a")
-            got, gres = observe(B, argv, str(B.root / CWDS[where]), base, "b")
+            cwd_b = str(B.root / CWDS[where])
+            if via_link is not None:
+                alias = os.path.join(base, "alias of %s" % os.path.basename(str(B.root)))
+                os.symlink(os.path.join(str(B.root), via_link) if via_link else str(B.root), alias)
+                cwd_b = alias
+            try:
+                got, gres = observe(B, argv, cwd_b, base, "b")
+            finally:
+                if via_link is not None:
+                    os.unlink(alias)
             for r in (rres, gres):
                 if isinstance(r.status, str):
                     g.require(False, "cwd:crash:%s:%s" % (r.status[4:], argv[0]), "%s; %s" % (r.exc, D))
